@@ -38,6 +38,7 @@ REQUIRED_THEOREMS = [
     "fixedStepper_is_iterate_field", "fixedStepper_euler_complexLike", "fixedStepper_rk4_complexLike",
     "adaptive_terminates", "adaptive_finishes_exact_or_floor", "eulerAdaptive_finishes_exact_or_floor",
     "rk4Times_extracted", "rkfTimes_extracted", "ab2Times_extracted", "fixedStepper_callTimes",
+    "shrinks_ctlOf", "adaptive_terminates_ctlOf",
 ]
 EXTRA_PROP_FILES = ["C06Gen"]  # theorems that need no ordered field (any arithmetic / any field), stage times of whole calls
 
@@ -1871,9 +1872,9 @@ def evaluate(ctx, tasks, runs, answers, index):
                         raise BrokenCheck(f"c06.steps: {fval}")
                     compare_steps(ctx, case, m, rr[m], fval, "correspondence:" + leg)
                     msegs, merr = decode_model_fixed(case, val)
+                    compare_times(ctx, case, m, rr[m], val, "correspondence:" + leg)
                     if compare_fixed(ctx, case, m, rr[m], msegs, merr, "correspondence:" + leg,
                                      [x[0] for x in fval]):
-                        compare_times(ctx, case, m, rr[m], val, "correspondence:" + leg)
                         # iteration counts of the implicit schemes against the model's convergence test
                         if rr[m]["calls"] is not None and case["via"] == "stepper" and rr[m]["error"] is None \
                                 and case["solver"] in ("implicit", "crank-nicolson"):
